@@ -82,6 +82,8 @@ def run_one(st, cls, spec, mode, ext, rnd, execute=True):
 def shard(tier, seed, shard, nshards):
     st = common.Stats()
     n = N[tier] // nshards
+    if shard == 1:
+        common.repo_suite_workload(st, ID, ("unbound-read", "syntax-error"))
     if shard == 0:
         for name, y, mode in corpus.repo_yaml_corpus(run.REPO):
             try:
